@@ -73,8 +73,9 @@ ErrCases == {MCase("error", "missing", NA, NA, NA, NA, NA, FALSE)} \cup
 MiscCases == {MCase(t, b, NA, NA, NA, NA, NA, FALSE) : t \in {"complete", "bitfield"}, b \in {"missing", "present"}} \cup
              {MCase("unknown", "missing", NA, NA, NA, NA, NA, FALSE)}
 \* framing classes: zero-length message, bytes that are not a protobuf message, a length prefix above the
-\* 32 KiB cap, a length prefix that promises more bytes than the stream delivers before it ends
-FrameCases == {MCase(t, NA, NA, NA, NA, NA, NA, t = "trunc") : t \in {"empty", "garbage", "oversize", "trunc"}}
+\* 32 KiB cap (just above, or 256 MiB) and a length prefix below it that promises more bytes than the
+\* stream delivers -- in both cases the stream ends right after (fin)
+FrameCases == {MCase(t, NA, NA, NA, NA, NA, NA, t \in {"trunc", "oversize"}) : t \in {"empty", "garbage", "oversize", "trunc"}}
 
 MsgCases == ReqCases \cup PayCases \cup AnnCases \cup CanCases \cup ErrCases \cup MiscCases \cup FrameCases
 
